@@ -438,3 +438,141 @@ class TimestampUpdate(Job):
 
 
 JOBS["C44"].append(TimestampUpdate())
+
+
+# =====================================================================================================
+# C42: redemption value and the stake -> redeem round trip (vault / resource manager reads are environment stubs)
+# =====================================================================================================
+def _validator_substate():
+    from mirsmt.values import UndefV
+    u = UndefV()
+    return StructV("ValidatorSubstate", [u, u, u, u, u, u, StructV("ResourceAddress", [IntV(1, "u8")]),
+                                         StructV("Own", [IntV(2, "u8")]), u, u, u, u, u, u])
+
+
+class RedemptionValue(Job):
+    crate = "radix-engine"
+    query_timeout_s = 120
+
+    def __init__(self, roundtrip=False):
+        self.roundtrip = roundtrip
+        if roundtrip:
+            self.name = "c42m::validator_stake_then_redeem_roundtrip"
+            self.what = ("calculate_stake_unit_amount followed by calculate_redemption_value on the grown pool (vault = "
+                         "stake + xrd, supply = supply + minted units), for every non-negative XRD amount, total stake and "
+                         "unit supply of a pool whose units are worth at most ... any ratio: staking and immediately "
+                         "unstaking never yields more XRD than was staked")
+            self.cover_labels = ["ok", "loses to rounding", "first stake"]
+        else:
+            self.name = "c42m::validator_calculate_redemption_value"
+            self.what = ("ValidatorBlueprint::calculate_redemption_value for every non-negative amount of stake units, "
+                         "vault balance and unit supply (the two reads are environment stubs): zero supply pays zero; "
+                         "otherwise the XRD value never exceeds the proportional share units * vault / supply and falls "
+                         "short of it by less than the two truncations")
+            self.cover_labels = ["ok", "zero supply", "rounded down"]
+
+    @property
+    def env_overrides(self):
+        def m_amount(interp, path, args, ret_ty, callee):
+            return _EnumV(ret_ty, 0, {0: [dec_v(self._A)]})
+
+        def m_supply(interp, path, args, ret_ty, callee):
+            return _EnumV(ret_ty, 0, {0: [_EnumV("Option<Decimal>", 1, {0: [], 1: [dec_v(self._S)]})]})
+        return [(_re.compile(r"as NativeVault>::amount::<"), m_amount),
+                (_re.compile(r"ResourceManager::total_supply::<"), m_supply)]
+
+    def locate(self, prog):
+        return find_function(prog, "consensus_manager/validator.rs", "calculate_redemption_value", nparams=3)
+
+    def inputs(self):
+        names = ("x", "T", "S") if self.roundtrip else ("u", "A", "S")
+        d = {k: z3.Int(k) for k in names}
+        # amounts up to 10^30 XRD: far above the 2.4 * 10^10 XRD max supply, and sums of two stay representable
+        return d, [z3.And(v >= 0, v <= 10 ** 48) for v in d.values()]
+
+    def setup_path(self, path, inp):
+        d = {k: lit(v) for k, v in inp.items()}
+        if not self.roundtrip:
+            self._A, self._S = d["A"], d["S"]
+        path.frames["job"] = {"api": StructV("Api", []), "sub": _validator_substate()}
+
+    def args(self, inp):
+        return [dec_v(lit(inp["u"])), _RefV("&ValidatorSubstate", "job", "sub", ()), _RefV("&mut Y", "job", "api", ())]
+
+    def run_body(self, it, prog, f, path, inp):
+        if not self.roundtrip:
+            return it.call_function(f, self.args(inp), path)
+        d = {k: lit(v) for k, v in inp.items()}
+        f_stake = find_function(prog, "consensus_manager/validator.rs", "calculate_stake_unit_amount", nparams=3)
+        outs = []
+        for o in it.call_function(f_stake, [dec_v(d["x"]), dec_v(d["T"]), dec_v(d["S"])], path):
+            if o.kind != "ret":
+                outs.append(o)
+                continue
+            r = o.value
+            from mirsmt import interp as _interp
+            for p2, tag in it.fork(o.path, [(r.discr == 0, "ok"), (r.discr != 0, "err")]):
+                if tag == "err":
+                    outs.append(_interp.Outcome(p2, "ret", StructV("Staged", [_BoolV(False), IntV(0, "BInt<3>"), IntV(0, "BInt<3>")])))
+                    continue
+                units = unwrap_int(r.variants[0][0])
+                self._A, self._S = d["T"] + d["x"], d["S"] + units
+                for o2 in it.call_function(f, [dec_v(units), _RefV("&ValidatorSubstate", "job", "sub", ()),
+                                               _RefV("&mut Y", "job", "api", ())], p2):
+                    if o2.kind != "ret":
+                        outs.append(o2)
+                        continue
+                    r2 = o2.value
+                    ok2 = r2.discr == 0
+                    v2 = unwrap_int(r2.variants[0][0]) if r2.variants.get(0) else z3.IntVal(0)
+                    outs.append(_interp.Outcome(o2.path, "ret", StructV("Staged", [_BoolV(ok2), IntV(z3.If(ok2, v2, 0), "BInt<3>"),
+                                                                                 IntV(units, "BInt<3>")])))
+        return outs
+
+    def extract(self, v):
+        if self.roundtrip:
+            return {"some": v.fields[0].term, "val": v.fields[1].term, "units": v.fields[2].term}
+        return res_extract(v)
+
+    def native(self, nat, vals):
+        if self.roundtrip:
+            t = nat.call("stake_roundtrip", vals["x"], vals["T"], vals["S"]).split()
+            if t[0] == "panic":
+                return {"panic": True, "msg": " ".join(t[1:])}
+            if t[0] == "err":
+                return {"panic": False, "some": False, "val": 0}
+            return {"panic": False, "some": True, "val": int(t[1]), "units": int(t[2])}
+        return parse_native_res(nat.call("redeem_value", vals["u"], vals["A"], vals["S"]))
+
+    def post(self, inp, res):
+        d = {k: lit(v) for k, v in inp.items()}
+        ok, v = lit(res["some"]), lit(res["val"])
+        if self.roundtrip:
+            return [("staking and immediately unstaking never yields more XRD than was staked", z3.Implies(ok, v <= d["x"]))]
+        u, A, S = d["u"], d["A"], d["S"]
+        return [("zero supply pays zero", z3.Implies(S == 0, z3.And(ok, v == 0))),
+                ("the value never exceeds the proportional share", z3.Implies(z3.And(ok, S > 0), z3.And(v >= 0, v * S <= u * A))),
+                ("the value falls short of the proportional share by less than the two truncations",
+                 z3.Implies(z3.And(ok, S > 0), (v + 1) * S * E18 + u * S > u * A * E18)),
+                # (a vault above the 2.4 * 10^10 XRD maximum supply can overflow the XRD-per-unit quotient: not a
+                # reachable state, so the never-fails clause is stated for vaults of at most 10^12 XRD)
+                ("redeeming at most the supply never fails (vault within the XRD supply)",
+                 z3.Implies(z3.And(S > 0, u <= S, A <= 10 ** 30), ok))]
+
+    def covers(self, inp, res):
+        d = {k: lit(v) for k, v in inp.items()}
+        ok, v = lit(res["some"]), lit(res["val"])
+        if self.roundtrip:
+            return [("ok", z3.And(ok, d["x"] > 0, d["T"] > 0)), ("loses to rounding", z3.And(ok, v < d["x"], d["T"] > 0)),
+                    ("first stake", z3.And(ok, d["T"] == 0))]
+        return [("ok", z3.And(ok, d["S"] > 0, v > 0)), ("zero supply", z3.And(ok, d["S"] == 0)),
+                ("rounded down", z3.And(ok, d["S"] > 0, v * d["S"] < d["u"] * d["A"]))]
+
+    def vectors(self, rng):
+        xs = [0, 1, 3, 7, E18, 3 * E18, 10 * E18, 123456789 * E18, 10 ** 30, 10 ** 40, 10 ** 48]
+        names = ("x", "T", "S") if self.roundtrip else ("u", "A", "S")
+        out = [{k: rng.choice(xs) for k in names} for _ in range(40)]
+        return out
+
+
+JOBS["C42"] += [RedemptionValue(), RedemptionValue(roundtrip=True)]
